@@ -270,6 +270,16 @@ EmitSim == Emit
 (* Design-level invariants and the oracle lemmas (DESIGN 3.4).  A violated *)
 (* lemma is a specification bug; the checks stop with exit 2.              *)
 
+\* action properties of the design (PROPERTY in the generator runs): construction only ever adds - features,
+\* relations and constraints of a state are still there in the next one - and hist grows by exactly one call
+BuildMonotone == [][stage' < 6 => /\ Names(model) \subseteq Names(model')
+                                  /\ IsPrefix(model.rels, model'.rels)
+                                  /\ Len(model.ctcs) <= Len(model'.ctcs)
+                                  /\ model'.root = model.root]_vars
+HistGrows     == [][Len(hist') = Len(hist) + 1 /\ SubSeq(hist', 1, Len(hist)) = hist]_vars
+\* an edit history keeps the model it started from
+BaseKept      == [][stage = 6 => base' = base]_vars
+
 InvWellFormed == WellFormedTree(model) /\ WfCards(model)
 InvHistReplay == Len(hist) >= 1        \* hist is total
 
